@@ -535,6 +535,13 @@ def run_equalised(n, sources, k, full=False, name="client"):
                     "ran": len(w.obj.log) - observe.log_before, "gen": []})
     for i in range(1, n + 1):
         real, info = construct_equalised(name, sources, k, full)
+        tries = 0
+        while seq and infos and info["id"] != infos[0]["id"] and tries < 8:
+            # the allocator did not hand out the first instance's address: drop this one unused and try again
+            tries += 1
+            del real
+            gc.collect()
+            real, info = construct_equalised(name, sources, k, full)
         infos.append(info)
         ctx = LoopCtx(real, hub, i)
         p = rpc.QMI_RpcProxy(ctx, w.obj.rpc_object_descriptor)
